@@ -127,6 +127,17 @@ CHECKS = {
                      'sink bookkeeping against the taps.',
                 note='Workloads use flows configured in every scheduler on their path; routing correctness itself is C18.',
                 ref='4/C08'),
+    'C18': dict(engine='N', what='forwarding tables (incl. empty), output lists, end-device maps, default outputs, hub populations '
+                'with/without Wire port devices, splitter fan-outs, FatTree(k) for k in {2,4,6} with seeded flow sets, '
+                'identity and many-to-one class maps, four switch schedulers',
+                text='Seeded exploration of four scenario families on the real classes: lookup rules observed by recorders on every '
+                     'output; hub delivery to every endpoint but the sender, through its wire (delivery instant proves the path); '
+                     'splitter identity/independence; fat-tree structure, shortest-path flows, hop-by-hop tables (and ACK class), '
+                     'then a simulated fat tree of FairPacketSwitches run to quiescence where every packet must reach exactly its '
+                     'own flow\'s sink and nothing may raise.',
+                note='The lookup and graph clauses are pure functions of their input (evaluated by inspection inside the scenarios); '
+                     'the hub-through-wires, end-to-end and several-flows-per-class clauses are the simulation targets.',
+                ref='4/C18 and 5'),
 }
 
 ENGINES = [
